@@ -30,6 +30,7 @@ struct Stats {
     exclude_checks: AtomicU64,
     pruned_dirs: AtomicU64,
     ci_checks: AtomicU64,
+    ci_partial_checks: AtomicU64,
 }
 
 #[derive(Clone)]
@@ -76,6 +77,19 @@ fn feature(glob: &str, path: &str, base: &str) -> &'static str {
     }
 }
 
+/// The literal text a glob starts with, per the reference parser.
+fn lead_of(ast: &[Node]) -> String {
+    ast.iter().map_while(|n| if let Node::Lit(c) = n { Some(*c) } else { None }).collect()
+}
+
+/// The known finding D6 (byte length compared with character count in `is_partial_match`) can only show on a
+/// directory path that has more characters than the pattern's literal prefix while one of the two contains a
+/// multi-byte character. The ignore-case pruning checks stay outside that class, so that they need no
+/// known-finding entry and report anything else that goes wrong there.
+fn outside_known_d6(dir_with_slash: &str, lead: &str) -> bool {
+    (dir_with_slash.is_ascii() && lead.is_ascii()) || dir_with_slash.chars().count() <= lead.chars().count()
+}
+
 fn build_paths(max_comp: usize, extra4: usize, rng: &mut Rng) -> Vec<String> {
     let mut paths = vec![];
     fn rec(cur: &str, depth: usize, max: usize, out: &mut Vec<String>) {
@@ -111,6 +125,16 @@ struct Ctx<'a> {
 impl Ctx<'_> {
     fn report(&self, kind: &str, glob: &str, path: &str, detail: String) {
         self.report_b(kind, glob, path, "", detail)
+    }
+
+    /// like `report`, for check kinds that exclude the known-finding class by construction
+    fn report_k(&self, kind: &str, glob: &str, path: &str, detail: String) {
+        let signature = format!("C16:{}", kind);
+        *self.sig_counts.lock().unwrap().entry(signature.clone()).or_insert(0) += 1;
+        let mut v = self.violations.lock().unwrap();
+        if v.iter().filter(|x| x.signature == signature).count() < 5 {
+            v.push(Violation { signature, glob: glob.to_string(), path: path.to_string(), detail });
+        }
     }
 
     fn report_b(&self, kind: &str, glob: &str, path: &str, base: &str, detail: String) {
@@ -262,10 +286,26 @@ impl Ctx<'_> {
                 self.stats.ci_checks.fetch_add(1, Ordering::Relaxed);
                 if got != want {
                     self.report_b("ignore-case-relative", glob, &full, base, format!("ci matches_full_path={got} documented={want}"));
+                    continue;
+                }
+                if want {
+                    let lead = format!("{base}/{}", lead_of(&ast));
+                    for d in ancestors(&full) {
+                        let ds = if d.ends_with('/') { d.clone() } else { format!("{d}/") };
+                        if !outside_known_d6(&ds, &lead) {
+                            continue;
+                        }
+                        self.stats.ci_partial_checks.fetch_add(1, Ordering::Relaxed);
+                        if !sel.matches_dir(&Path::from(d.as_str())) {
+                            self.report_k("ignore-case-relative-dir", glob, &full, format!("ci base {base:?}: matches_dir({d:?})=false but {full:?} matches"));
+                        }
+                    }
                 }
             }
             return;
         }
+        let lead = lead_of(&ast);
+        let ci_sel = PathSelector::new(Path::from("/")).include_paths(vec![pat.clone()]);
         for p in self.paths.iter().take(600) {
             for variant in [p.to_uppercase(), p.clone()] {
                 let want = globref::matches(&ast, &variant, true);
@@ -273,6 +313,24 @@ impl Ctx<'_> {
                 self.stats.ci_checks.fetch_add(1, Ordering::Relaxed);
                 if got != want {
                     self.report("ignore-case", glob, &variant, format!("ci matches={got} documented={want}"));
+                    continue;
+                }
+                if !want {
+                    continue;
+                }
+                // pruning must stay conservative under --ignore-case as well
+                for d in ancestors(&variant) {
+                    let ds = if d.ends_with('/') { d.clone() } else { format!("{d}/") };
+                    if !outside_known_d6(&ds, &lead) {
+                        continue;
+                    }
+                    self.stats.ci_partial_checks.fetch_add(1, Ordering::Relaxed);
+                    if !pat.matches_partially(&ds) {
+                        self.report_k("ignore-case-partial", glob, &variant, format!("ci matches_partially({ds:?})=false but {variant:?} matches"));
+                    }
+                    if !ci_sel.matches_dir(&Path::from(d.as_str())) {
+                        self.report_k("ignore-case-selector-dir", glob, &variant, format!("ci matches_dir({d:?})=false but {variant:?} matches"));
+                    }
                 }
             }
         }
@@ -310,6 +368,7 @@ fn main() {
         exclude_checks: AtomicU64::new(0),
         pruned_dirs: AtomicU64::new(0),
         ci_checks: AtomicU64::new(0),
+        ci_partial_checks: AtomicU64::new(0),
     };
     let violations = Mutex::new(Vec::new());
     let sig_counts = Mutex::new(BTreeMap::new());
@@ -354,7 +413,10 @@ fn main() {
                         break;
                     }
                     ctx.check_glob(&work[i]);
-                    if i % 7 == 0 {
+                    // a pseudo-random 1/8 of the globs (1/2 of those with a non-ASCII literal) also go through the
+                    // --ignore-case checks; `i % 7` would alias with the enumeration order of the token sequences
+                    let h = (i as u64 ^ seed).wrapping_mul(0x9E3779B97F4A7C15) >> 61;
+                    if h == 0 || (!work[i].is_ascii() && h < 4) {
                         ctx.check_ci(&work[i]);
                     }
                 }
@@ -381,6 +443,7 @@ fn main() {
         ("exclude_checks", &st.exclude_checks),
         ("pruned_dirs", &st.pruned_dirs),
         ("ci_checks", &st.ci_checks),
+        ("ci_partial_checks", &st.ci_partial_checks),
     ] {
         out.push_str(&format!("\"{k}\":{},", a.load(Ordering::Relaxed)));
     }
